@@ -13,8 +13,7 @@ def Cases(tier):
   n = int(os.environ.get('VERIF_N', 0)) or (150 if tier == 'quick' else 4000)
   rng = common.Rng(PROP)
   cases = [genfun.Generate(rng, 'f%d' % i) for i in range(n)]
-  for k, c in enumerate(cases):
-    c['stages'] = (k % 3 == 0)     # tree-level stage validation on a third
+
   # directed shapes: made predicates with own rules / own limit, dependency
   # order of functor applications
   reps = 4 if tier == 'quick' else 60
